@@ -250,7 +250,7 @@ def gen_model(rng, size="small", feats=None):
     user = []
     if F.get("user") and F.get("user_wait"):
         # a temporal user rule that an EARLIER arrival can break: a bound on the wait at a stop (or at the end of the vehicle)
-        user.append(("wait", rng.choice([0, 60, 300, 900]), rng.random() < 0.3, True))
+        user.append(("wait", rng.choice([300, 600, 900, 1800]), rng.random() < 0.3, True))
     elif F.get("user"):
         for _ in range(rng.randint(1, 2)):
             f = rng.choice(["pos", "arrival", "start", "end", "cumtravel", "wait"] + (["level0"] if nres else []))
